@@ -154,23 +154,27 @@ def judge_hid(res, cfg, w, obs):
         if statuses[:2] != exp_prefix:
             add_violation(res, f"C17:{tag}:status-disconnected-missing", f"{cfg}: status callbacks {statuses}", case)
         limit = cfg["limit"]
-        opens = [t for t, p in w.open_calls][1:]          # reconnect attempts
-        tl = next((t for t, s in obs["status"] if s == "disconnected"), None)
-        nloss = sum(1 for x in w.trace if x == "fault:loss")
-        if nloss == 1 and not returned:
-            # attempts happen at loss + k * interval, up to the limit
+        # one episode per 'disconnected': reconnect attempts (os.open calls) until the next 'connected'
+        st = obs["status"]
+        dtimes = [t for t, x in st if x == "disconnected"]
+        for k, td in enumerate(dtimes):
+            tend = min([t for t, x in st if x == "connected" and t > td] + [float("inf")])
+            tnext = dtimes[k + 1] if k + 1 < len(dtimes) else float("inf")
+            tend = min(tend, tnext)
+            opens = [t for t, p in w.open_calls if td < t <= tend + 1e-6]
+            failed_here = any(x == "failed" and td <= t <= tend + 1e-6 for t, x in st)
             for kth, t in enumerate(opens, start=1):
-                if tl is not None and abs(t - (tl + kth * 1.0)) > 1e-3:
-                    add_violation(res, f"C17:{tag}:reconnect-interval", f"{cfg}: reconnect attempt {kth} at t={t}, loss at {tl}", case)
+                if abs(t - (td + kth * 1.0)) > 1e-3:
+                    add_violation(res, f"C17:{tag}:reconnect-interval", f"{cfg}: reconnect attempt {kth} at t={t}, disconnected at {td}", case)
             if limit is not None:
                 if len(opens) > limit:
-                    add_violation(res, f"C17:{tag}:reconnect-limit-exceeded", f"{cfg}: {len(opens)} attempts, limit {limit}", case)
-                exhausted = len(opens) == limit and (w.loop.next_timer() is None if False else True) and w.status == "quiescent" \
-                    and d._reconnect_task is None
-                if exhausted and "failed" not in statuses:
+                    add_violation(res, f"C17:{tag}:reconnect-limit-exceeded", f"{cfg}: {len(opens)} attempts after the loss at t={td}, limit {limit}", case)
+                if failed_here and len(opens) < limit:
+                    add_violation(res, f"C17:{tag}:failed-too-early", f"{cfg}: 'failed' after {len(opens)} attempts in the episode starting at t={td}, limit {limit}; status {statuses}", case)
+                last = k == len(dtimes) - 1
+                if last and not connected_end and len(opens) == limit and w.status == "quiescent" and d._reconnect_task is None \
+                        and not failed_here:
                     add_violation(res, f"C17:{tag}:failed-not-reported", f"{cfg}: reconnect limit {limit} reached after {len(opens)} attempts but status callbacks were {statuses}", case)
-                if "failed" in statuses and len(opens) < limit:
-                    add_violation(res, f"C17:{tag}:failed-too-early", f"{cfg}: 'failed' after {len(opens)} attempts, limit {limit}", case)
         if returned and connected_end:
             if statuses[-1] != "connected":
                 add_violation(res, f"C17:{tag}:status-reconnected-missing", f"{cfg}: status callbacks {statuses}", case)
@@ -284,6 +288,8 @@ def shards(tier):
             for kinds in (("num",), ("num", "off")):
                 for limit in (None, 1):
                     out.append(("loss", drv, kinds, True, limit, True, 2, 3))
+        for limit in (1, 3):
+            out.append(("loss", drv, ("num",), True, limit, True, 2, 2))       # loss, return, loss again
         for kinds in (("num",), ("twice",), ("dt",), ("num", "num")):
             for start_seq in (1, 0xFE):
                 out.append(("cancel", drv, kinds, start_seq, 2 if (tier != "quick" or kinds == ("num", "num")) else 1))
